@@ -19,7 +19,21 @@ import (
 	"github.com/filecoin-project/go-f3/gpbft"
 	"github.com/filecoin-project/go-f3/verifh/vkit"
 	"github.com/filecoin-project/go-f3/verifh/vsig"
+	"github.com/libp2p/go-libp2p/core/peer"
 )
+
+// pollerKinds: every script except the one that resets the stream after a valid prefix — a
+// reset may or may not discard bytes already written, so "the valid prefix the peer sent" is not
+// well defined for it (the client part keeps it, its oracle is an upper bound).
+var pollerKinds = func() []string {
+	var out []string
+	for _, k := range scriptKinds {
+		if k != "truncated-reset" {
+			out = append(out, k)
+		}
+	}
+	return out
+}()
 
 // pollRef is the reference outcome of one Poll computed from what the peer actually sent.
 type pollRef struct {
@@ -114,17 +128,35 @@ func simulatePoll(log []exchange, n0 uint64, table gpbft.PowerEntries, prevHead 
 // pollCut is the logical watchdog against a Poll that never returns: it cancels the Poll's
 // context once the responder has served more than max requests since Arm.
 type pollCut struct {
-	mu     sync.Mutex
-	max    int
-	cancel context.CancelFunc
-	fired  bool
+	mu      sync.Mutex
+	max     int
+	cancel  context.CancelFunc
+	fired   bool
+	streams int     // inbound streams counted by onStream since set()
+	from    peer.ID // only streams from this peer count
 }
 
 func (p *pollCut) set(max int, c context.CancelFunc) {
 	p.mu.Lock()
-	p.max, p.cancel, p.fired = max, c, false
+	p.max, p.cancel, p.fired, p.streams = max, c, false, 0
 	p.mu.Unlock()
 }
+
+// onStream is the countingHost hook of the honest servers.
+func (p *pollCut) onStream(remote peer.ID) {
+	p.mu.Lock()
+	defer p.mu.Unlock()
+	if remote != p.from {
+		return
+	}
+	p.streams++
+	if p.cancel != nil && p.streams > p.max && !p.fired {
+		p.fired = true
+		p.cancel()
+	}
+}
+
+func (p *pollCut) streamCount() int { p.mu.Lock(); defer p.mu.Unlock(); return p.streams }
 
 func (p *pollCut) onServe(n int) {
 	p.mu.Lock()
@@ -198,7 +230,7 @@ func pollerPart(run *vkit.Run) {
 		defer cancel()
 		mn, hs, err := newNet(5)
 		if err != nil {
-			run.Count("harness_errors", 1)
+			herr(run, "poller:1")
 			return
 		}
 		defer mn.Close()
@@ -206,41 +238,46 @@ func pollerPart(run *vkit.Run) {
 		if rng.Intn(3) == 0 {
 			p0 = 0
 		}
+		if first != 0 && p0 == 0 {
+			// polling.NewPoller cannot be constructed over an EMPTY store whose first instance is
+			// not 0 (it asks the store for the power table of instance 0); outside this property.
+			p0 = 1
+		}
 		pstore, err := newStore(ctx, ch, p0)
 		if err != nil {
-			run.Count("harness_errors", 1)
+			herr(run, "poller:2")
 			return
 		}
 		// honest server A
 		hA := rng.Intn(length + 1)
 		storeA, err := newStore(ctx, ch, hA)
 		if err != nil {
-			run.Count("harness_errors", 1)
+			herr(run, "poller:3")
 			return
 		}
-		srvA := &certexchange.Server{NetworkName: netName, Host: hs[2], Store: storeA}
+		cut := &pollCut{from: hs[0].ID()}
+		srvA := &certexchange.Server{NetworkName: netName, Host: countingHost{Host: hs[2], onStream: cut.onStream}, Store: storeA}
 		// honest server B whose store starts later than the chain (cannot serve early instances)
 		skip := 1 + rng.Intn(length/2)
 		hB := skip + 1 + rng.Intn(length-skip)
 		storeB, err := newStoreFrom(ctx, ch, skip, hB)
 		if err != nil {
-			run.Count("harness_errors", 1)
+			herr(run, "poller:4")
 			return
 		}
-		srvB := &certexchange.Server{NetworkName: netName, Host: hs[3], Store: storeB}
+		srvB := &certexchange.Server{NetworkName: netName, Host: countingHost{Host: hs[3], onStream: cut.onStream}, Store: storeB}
 		for _, s := range []*certexchange.Server{srvA, srvB} {
 			if err := s.Start(ctx); err != nil {
-				run.Count("harness_errors", 1)
+				herr(run, "poller:5")
 				return
 			}
 			defer s.Stop(context.Background()) //nolint:errcheck
 		}
-		cut := &pollCut{}
 		resp := &Responder{Chain: ch, Alt: alt, Other: other, onServe: cut.onServe}
 		hs[1].SetStreamHandler(certexchange.FetchProtocolName(netName), resp.Handle)
 		poller, err := polling.NewPoller(ctx, &certexchange.Client{Host: hs[0], NetworkName: netName}, pstore, vsig.Backend{})
 		if err != nil {
-			run.Count("harness_errors", 1)
+			herr(run, "poller:6")
 			return
 		}
 		refStored := p0 // number of chain certificates the poller's store must hold
@@ -250,12 +287,12 @@ func pollerPart(run *vkit.Run) {
 			var prevHead *gpbft.TipSet
 			if l := pstore.Latest(); l != nil {
 				if l.GPBFTInstance+1 != n0 {
-					run.Count("harness_errors", 1)
+					herr(run, "poller:7")
 					return
 				}
 				prevHead = l.ECChain.TipSets[len(l.ECChain.TipSets)-1]
 			} else if refStored != 0 {
-				run.Count("harness_errors", 1)
+				herr(run, "poller:8")
 				return
 			}
 			action := rng.Intn(10)
@@ -264,7 +301,7 @@ func pollerPart(run *vkit.Run) {
 				k := 1 + rng.Intn(3)
 				for ; k > 0 && refStored < length; k-- {
 					if err := pstore.Put(ctx, cloneCert(ch.Raw[refStored])); err != nil {
-						run.Count("harness_errors", 1)
+						herr(run, "poller:9")
 						return
 					}
 					refStored++
@@ -284,7 +321,7 @@ func pollerPart(run *vkit.Run) {
 			switch {
 			case action <= 5:
 				peerKind = "responder"
-				sc = Script{Kind: scriptKinds[rng.Intn(len(scriptKinds))], Pending: pendingModes[rng.Intn(len(pendingModes))], Once: rng.Intn(3) == 0}
+				sc = Script{Kind: pollerKinds[rng.Intn(len(pollerKinds))], Pending: pendingModes[rng.Intn(len(pendingModes))], Once: rng.Intn(3) == 0}
 				lo := refStored - 2
 				if lo < 0 {
 					lo = 0
@@ -311,7 +348,7 @@ func pollerPart(run *vkit.Run) {
 				}
 				for ; grow > 0 && hA < length; grow-- {
 					if err := storeA.Put(ctx, cloneCert(ch.Raw[hA])); err != nil {
-						run.Count("harness_errors", 1)
+						herr(run, "poller:10")
 						pcancel()
 						return
 					}
@@ -331,6 +368,8 @@ func pollerPart(run *vkit.Run) {
 			pcancel()
 			if ctx.Err() != nil {
 				run.Inconclusive("watchdog")
+				run.Count("watchdog_poll_"+peerKind+"_"+sc.Kind, 1)
+				fmt.Printf("WATCHDOG poll case=%d step=%d peer=%s script=%s\n", caseNo, step, peerKind, sc.String())
 				return
 			}
 			run.Eval(1)
@@ -351,7 +390,7 @@ func pollerPart(run *vkit.Run) {
 			case "responder":
 				log := resp.Log()
 				if len(log) == 0 {
-					run.Count("harness_errors", 1)
+					herr(run, "poller:11")
 					return
 				}
 				run.Count("responder_scripts_run", 1)
@@ -386,7 +425,7 @@ func pollerPart(run *vkit.Run) {
 						ref.Table = ch.Tables[have]
 						ref.Accepted = have - refStored
 						// the pinned server sends nothing when first+256 wraps around (defect 3)
-						overflow = n0+serverMax < n0
+						overflow = (pend-1)+serverMax < pend-1
 					}
 					ref.Terminal = "honest server at or ahead of us"
 				default:
@@ -398,14 +437,37 @@ func pollerPart(run *vkit.Run) {
 			shape := fmt.Sprintf("peer=%s script=%s pending=%s once=%v", peerKind, sc.Kind, sc.Pending, sc.Once)
 			// 1. nothing invalid in the store, advance exactly by the valid prefix
 			stored, problem := checkStore(ctx, ch, pstore, n0, ref.Next)
-			run.Count("poller_certs_stored", int64(stored))
 			run.Count("poller_items_rejected", int64(ref.Rejected))
 			bad := false
-			if problem != "" && overflow {
-				run.Violation(fmt.Sprintf("poller vs honest server: no progress because the server's first+limit overflows uint64: sent 0 of %d available certificates (%s; %s)", ref.Accepted, shape, problem), w)
-				refStored += stored
+			if overflow {
+				// Defect 3 (server): requests whose first+256 wraps around get no certificates. The
+				// honest server then looks like "claims more, sends nothing"; how far the poller gets
+				// depends on where the wrap starts. Only safety is asserted here, and the known
+				// defects are reported under their own signatures.
+				actual := ch.First
+				if l := pstore.Latest(); l != nil {
+					actual = l.GPBFTInstance + 1
+				}
+				stored, problem = checkStore(ctx, ch, pstore, n0, actual)
+				run.Count("poller_certs_stored", int64(stored))
+				if problem != "" {
+					run.Violation(fmt.Sprintf("poller: %s (%s; reference: %s)", problem, shape, ref.Terminal), w)
+					return
+				}
+				if poller.NextInstance != actual {
+					run.Violation(fmt.Sprintf("poller: NextInstance=%d after Poll, store next is %d (status %s; %s)", poller.NextInstance, actual, res.Status, shape), w)
+					return
+				}
+				if actual < ref.Next {
+					run.Violation(fmt.Sprintf("poller vs honest server: no full progress because the server's first+limit overflows uint64: sent 0 of %d available certificates from %d (%s)", ref.Next-actual, actual, shape), w)
+				}
+				if fired {
+					run.Violation(fmt.Sprintf("poller: Poll keeps re-requesting after a response with 0 deliverable certificates and pending>next once an earlier response delivered some (doc: treat as failure): cut by harness=%v after %d requests (%s)", fired, cut.streamCount(), shape), w)
+				}
+				refStored = int(actual - ch.First)
 				continue
 			}
+			run.Count("poller_certs_stored", int64(stored))
 			if problem != "" {
 				bad = true
 				run.Violation(fmt.Sprintf("poller: %s (%s; reference: %s)", problem, shape, ref.Terminal), w)
